@@ -60,6 +60,9 @@ PROGS = {
     "acc0": lambda s: s.accumulate(add, start=0),
     "accrs": lambda s: s.accumulate(accrs, start=0, returns_state=True),
     "map.acc": lambda s: s.map(inc).accumulate(add),
+    "accws": lambda s: s.accumulate(add, with_state=True),
+    "accws.buffer": lambda s: s.accumulate(add, with_state=True).buffer(2),
+    "accws0.partition": lambda s: s.accumulate(add, start=0, with_state=True).partition(2),
     "map.buffer": lambda s: s.map(inc).buffer(2),
     "buffer.map": lambda s: s.buffer(2).map(inc),
     "map.partition": lambda s: s.map(inc).partition(2),
